@@ -178,6 +178,19 @@ func (d *msgDriver) dec(di int, payload B, v2 bool, tag string) {
 		"src_mod": sm, "tail_mod": tm, "tag": tag, "again_differs": takeAgainDiffers()})
 }
 
+var collideDone int
+
+// pairs of equal length with the same 32-bit hash under some common hash function (found by search, lib note in DESIGN.md)
+var hashCollisions = [][2]string{
+	{"SERVO1324_FF", "FLTMODE719_I"}, {"WPNAV250_D", "EK3486_MAX"}, {"INS1697_FUNCTION", "LOG1639_REVERSED"}, // FNV-1a/32
+	{"RC66266_FF", "EK317754_P"}, {"RC28315_REVERSED", "ARMING67942_TRIM"}, // FNV-1a/32
+	{"LOG35868_P", "MOT27275_I"}, {"BATT24925_ENABLE", "PSC9575_REVERSED"}, // FNV-1/32
+	{"RC30335_FUNCTION", "FLTMODE30678_MAX"}, // CRC-32 (IEEE)
+	{"INS60877_P", "MOT17392_P"}, {"FLTMODE96827_MIN", "RC57743_REVERSED"}, // djb2
+	{"COMPASS99549_MIN", "BATT39381_ENABLE"}, // h*31+c
+	{"PSC16050_I", "LOG67125_D"}, {"COMPASS15040_MIN", "FLTMODE36372_MIN"}, // Adler-32
+}
+
 func boundaryElem(r *rand.Rand, size int) B {
 	switch r.Intn(8) {
 	case 0:
@@ -442,6 +455,25 @@ func cmdMsg(o opts) {
 				}
 			}
 		} else {
+			// strings that a weak 32-bit hash cannot tell apart (equal length; FNV-1a, FNV-1, CRC-32, djb2, x31, Adler-32):
+			// decoded one after the other through the same codec - a value cache keyed by such a hash gives the first one twice
+			for i, s := range sh {
+				if !s.isStr || s.strlen < 10 || (collideDone >= 8 && !thorough) {
+					continue
+				}
+				collideDone++
+				for _, pr := range hashCollisions {
+					if len(pr[0]) > s.strlen {
+						continue
+					}
+					for _, str := range []string{pr[0], pr[1], pr[0]} {
+						vals := cloneVals(zero)
+						vals[i] = []B{B(str)}
+						d.enc(di, vals, true, "collide")
+						d.enc(di, vals, false, "collide")
+					}
+				}
+			}
 			// c04: full assignments from boundary sets, both versions
 			na := 3
 			if thorough {
